@@ -554,6 +554,47 @@ def toGate (g : String × Nat) : Gate :=
   | "H" => .H g.2 | "P" => .P g.2 | "P_dag" => .Pdag g.2 | "X" => .X g.2 | "Y" => .Y g.2 | "Z" => .Z g.2
   | _ => .I g.2
 
+/-! ## `converter_gate_list` / `lc_check` on graphs with `_phase_correction` and the validation modelled function by function
+
+  `converterGateList(R)` above computes the phase correction at specification level (`phaseCorrection`: the `Z` gates on the qubits
+  whose generator carries the sign `−`) and `lcCheck(R)` validates through `isGraphState`.  The functions below mirror the Python
+  literally: `_phase_correction(tab1, tab2, gate_list)` is the C08 model `S2G.phaseCorrection` (canonical forms, `run_circuit`,
+  exact inverse of the X part, `z_ops = x_inv @ phase_diff`), the validation is the comparison of canonical forms
+  (`S2G.sameStabilizerState`).  `Proofs/LCPhase.lean` proves that they return the same results. -/
+
+/-- a `Gate` back as a `(name, qubit)` pair of a gate list -/
+def fromGate : Gate → String × Nat
+  | .H q => ("H", q) | .P q => ("P", q) | .Pdag q => ("P_dag", q) | .X q => ("X", q) | .Y q => ("Y", q) | .Z q => ("Z", q)
+  | .I q => ("I", q) | .CNOT c _ => ("CNOT", c) | .CZ c _ => ("CZ", c)
+
+/-- `converter_gate_list(g1, g2)`, function by function -/
+def converterGateListF (a b : BMat) : Except Err (List (String × Nat)) :=
+  match isLcEquivalentR a b .det [] with
+  | .error e => .error e
+  | .ok out =>
+    match out.sol with
+    | none => .error .assertion
+    | some s =>
+      let names := localCliffordOps a.r s
+      let gates : List (String × Nat) := (names.zipIdx).flatMap fun (ops, i) => ops.reverse.map fun o => (o, i)
+      match S2G.phaseCorrection (graphSTab a.r a.f) (graphSTab b.r b.f) (gates.map toGate) with
+      | .error e => .error e
+      | .ok zs => .ok (gates ++ zs.map fromGate)
+
+/-- `lc_check(g1, g2, validate)` for two graphs / adjacency matrices, function by function -/
+def lcCheckF (a b : BMat) (validate : Bool) : Except Err (Bool × List (String × Nat)) :=
+  match converterGateListF a b with
+  | .error _ => .ok (false, [])
+  | .ok gates =>
+    if validate then
+      match S2G.sameStabilizerState ((graphSTab a.r a.f).runCircuit (gates.map toGate)) (graphSTab b.r b.f) with
+      | .error e => .error e
+      | .ok true => .ok (true, gates)
+      | .ok false => .error .warning
+    else .ok (true, gates)
+
+/-! ## `lc_check` on stabilizer states (tableau inputs), over the function-level `converter_gate_list` -/
+
 /-- `lc_check(state1, state2, validate)` for two `StabilizerTableau`s (a `CliffordTableau` is first reduced by
     `to_stabilizer`): both states are converted by `state_to_graph` (exceptions propagate), `converter_gate_list` runs on the two
     graphs inside the bare `try … except` (any exception → `(False, [])`), the total gate list is
@@ -566,9 +607,9 @@ def lcCheckStates (t1 t2 : STab) (validate : Bool) : Except Err (Bool × List Ga
     match S2G.stateToGraph t2 with
     | .error e => .error e
     | .ok (g2, G2) =>
-      match converterGateListR g1 g2 with
+      match converterGateListF g1 g2 with
       | .error _ => .ok (false, [])
-      | .ok (L, _) =>
+      | .ok L =>
         let total := G1 ++ L.map toGate ++ G2.reverse.map Gate.rev
         if validate then
           match S2G.sameStabilizerState (t1.runCircuit total) t2 with
@@ -583,9 +624,9 @@ def lcCheckStateGraph (t1 : STab) (g2 : BMat) (validate : Bool) : Except Err (Bo
   match S2G.stateToGraph t1 with
   | .error e => .error e
   | .ok (g1, G1) =>
-    match converterGateListR g1 g2 with
+    match converterGateListF g1 g2 with
     | .error _ => .ok (false, [])
-    | .ok (L, _) =>
+    | .ok L =>
       let total := G1 ++ L.map toGate
       if validate then
         match S2G.sameStabilizerState (t1.runCircuit total) (graphSTab g2.r g2.f) with
